@@ -9,6 +9,7 @@ package jsonpath
 import (
 	"encoding/json"
 	"fmt"
+	"math/rand"
 	"os"
 	"reflect"
 	"sort"
@@ -1958,6 +1959,372 @@ func apiCheckParseIndependent(t *testing.T) {
 	}
 }
 
+// ---------------------------------------------------------------------------------------------------------------
+// C18: equivalent spellings.  A path is generated as a small AST; sp renders it - canonically (no optional space, `$`
+// written, dot names, single quotes, plain integers) or with the variations the grammar declares insignificant drawn
+// from a seeded generator.  Every spelling must parse and give, on every document, the values of the canonical
+// spelling or an error of the same type.
+
+type sp struct {
+	r     *rand.Rand
+	canon bool
+}
+
+func (s *sp) n(k int) int {
+	if s.canon {
+		return 0
+	}
+	return s.r.Intn(k)
+}
+
+func (s *sp) space() string {
+	return strings.Repeat(" ", []int{0, 0, 1, 3}[s.n(4)])
+}
+
+func (s *sp) integer(v int) string {
+	sign, digits := "", fmt.Sprint(v)
+	if v < 0 {
+		sign, digits = "-", digits[1:]
+	} else if s.n(3) == 1 {
+		sign = "+"
+	}
+	return sign + []string{"", "", "0", "00"}[s.n(4)] + digits
+}
+
+func (s *sp) quoted(k string) string {
+	if s.n(2) == 1 {
+		return `"` + k + `"`
+	}
+	return "'" + k + "'"
+}
+
+type spNode struct {
+	kind  string // name multi wild index slice union filter | or and not paren cmp exists | path number string word
+	key   string
+	keys  []string
+	num   int
+	parts []*int
+	kids  []*spNode
+	rec   bool // `..` before the step
+	op    string
+	root  string // `@` or `$` of a path inside a filter
+}
+
+func (s *sp) bracket(inner string) string { return "[" + s.space() + inner + s.space() + "]" }
+
+// step renders one step; first: it is the first step of the whole path (where `$` may be left out)
+func (s *sp) step(n *spNode) (text string, bracket bool) {
+	switch n.kind {
+	case "name":
+		if s.n(3) == 0 {
+			return "." + n.key, false
+		}
+		return s.bracket(s.quoted(n.key)), true
+	case "wild":
+		if s.n(2) == 0 {
+			return ".*", false
+		}
+		return s.bracket("*"), true
+	case "multi":
+		var ks []string
+		for _, k := range n.keys {
+			ks = append(ks, s.quoted(k))
+		}
+		return s.bracket(s.join(ks, ",")), true
+	case "index":
+		return s.bracket(s.integer(n.num)), true
+	case "slice":
+		return s.bracket(s.slice(n.parts)), true
+	case "union":
+		var items []string
+		for _, k := range n.kids {
+			switch k.kind {
+			case "index":
+				items = append(items, s.integer(k.num))
+			case "slice":
+				items = append(items, s.slice(k.parts))
+			default:
+				items = append(items, "*")
+			}
+		}
+		return s.bracket(s.join(items, ",")), true
+	case "filter":
+		return s.bracket("?(" + s.space() + s.query(n.kids[0]) + s.space() + ")"), true
+	}
+	panic("sp: step kind " + n.kind)
+}
+
+func (s *sp) join(items []string, sep string) string {
+	out := ""
+	for i, it := range items {
+		if i > 0 {
+			out += s.space() + sep + s.space()
+		}
+		out += it
+	}
+	return out
+}
+
+func (s *sp) slice(parts []*int) string {
+	var items []string
+	for _, p := range parts {
+		if p == nil {
+			items = append(items, "")
+		} else {
+			items = append(items, s.integer(*p))
+		}
+	}
+	return s.join(items, ":")
+}
+
+func (s *sp) steps(steps []*spNode, root string, mayOmitRoot bool) string {
+	out := root
+	for i, n := range steps {
+		text, bracket := s.step(n)
+		if n.rec {
+			if bracket {
+				text = ".." + text
+			} else {
+				text = "." + text
+			}
+		}
+		if i == 0 && mayOmitRoot && !n.rec && (bracket || n.kind == "name") && s.n(3) == 1 {
+			// `$` may be left out before a name or a bracket
+			out = ""
+			if !bracket {
+				text = text[1:]
+			}
+		}
+		out += text
+	}
+	return out
+}
+
+func (s *sp) query(n *spNode) string {
+	switch n.kind {
+	case "or":
+		return s.query(n.kids[0]) + s.space() + "||" + s.space() + s.query(n.kids[1])
+	case "and":
+		return s.query(n.kids[0]) + s.space() + "&&" + s.space() + s.query(n.kids[1])
+	case "paren":
+		return "(" + s.space() + s.query(n.kids[0]) + s.space() + ")"
+	case "not":
+		return "!" + s.space() + s.query(n.kids[0])
+	case "exists":
+		return s.query(n.kids[0])
+	case "cmp":
+		return s.query(n.kids[0]) + s.space() + n.op + s.space() + s.query(n.kids[1])
+	case "path":
+		return s.space() + s.steps(n.kids, n.root, false) + s.space()
+	case "number":
+		if n.key != "" { // a decimal fraction: sign and leading zeros vary, the digits do not
+			sign := ""
+			if s.n(3) == 1 {
+				sign = "+"
+			}
+			return sign + []string{"", "", "0", "00"}[s.n(4)] + n.key
+		}
+		return s.integer(n.num)
+	case "string":
+		return s.quoted(n.key)
+	case "word":
+		return n.key
+	}
+	panic("sp: query kind " + n.kind)
+}
+
+type spGen struct{ r *rand.Rand }
+
+func (g *spGen) key() string { return []string{"a", "b", "c", "p", "y", "a", "b"}[g.r.Intn(7)] }
+
+func (g *spGen) intp(lo, hi int) *int {
+	if g.r.Intn(3) == 0 {
+		return nil
+	}
+	v := lo + g.r.Intn(hi-lo+1)
+	return &v
+}
+
+func (g *spGen) sliceParts() []*int {
+	parts := []*int{g.intp(-3, 4), g.intp(-3, 5)}
+	if g.r.Intn(2) == 0 {
+		st := []int{1, 2, -1, -2, 3}[g.r.Intn(5)]
+		parts = append(parts, &st)
+	}
+	return parts
+}
+
+func (g *spGen) stepNode(depth int) *spNode {
+	switch k := g.r.Intn(12); {
+	case k < 4:
+		return &spNode{kind: "name", key: g.key()}
+	case k == 4:
+		return &spNode{kind: "wild"}
+	case k == 5:
+		n := &spNode{kind: "multi"}
+		for i := 2 + g.r.Intn(2); i > 0; i-- {
+			n.keys = append(n.keys, g.key())
+		}
+		return n
+	case k == 6 || k == 7:
+		return &spNode{kind: "index", num: g.r.Intn(6) - 2}
+	case k == 8:
+		return &spNode{kind: "slice", parts: g.sliceParts()}
+	case k == 9:
+		n := &spNode{kind: "union"}
+		for i := 2 + g.r.Intn(2); i > 0; i-- {
+			switch g.r.Intn(4) {
+			case 0:
+				n.kids = append(n.kids, &spNode{kind: "slice", parts: g.sliceParts()})
+			case 1:
+				n.kids = append(n.kids, &spNode{kind: "wild"})
+			default:
+				n.kids = append(n.kids, &spNode{kind: "index", num: g.r.Intn(5) - 2})
+			}
+		}
+		return n
+	default:
+		if depth <= 0 {
+			return &spNode{kind: "name", key: g.key()}
+		}
+		return &spNode{kind: "filter", kids: []*spNode{g.orNode(depth - 1)}}
+	}
+}
+
+func (g *spGen) pathNode(root string, single bool) *spNode {
+	n := &spNode{kind: "path", root: root}
+	for i := 1 + g.r.Intn(2); i > 0; i-- {
+		if single || g.r.Intn(4) > 0 {
+			n.kids = append(n.kids, &spNode{kind: "name", key: g.key()})
+		} else {
+			n.kids = append(n.kids, &spNode{kind: "index", num: g.r.Intn(3)})
+		}
+	}
+	return n
+}
+
+func (g *spGen) orNode(depth int) *spNode {
+	n := g.andNode(depth)
+	for g.r.Intn(4) == 0 {
+		n = &spNode{kind: "or", kids: []*spNode{n, g.andNode(depth)}}
+	}
+	return n
+}
+
+func (g *spGen) andNode(depth int) *spNode {
+	n := g.basicNode(depth)
+	for g.r.Intn(4) == 0 {
+		n = &spNode{kind: "and", kids: []*spNode{n, g.basicNode(depth)}}
+	}
+	return n
+}
+
+func (g *spGen) basicNode(depth int) *spNode {
+	switch k := g.r.Intn(10); {
+	case k == 0 && depth > 0:
+		return &spNode{kind: "paren", kids: []*spNode{g.orNode(depth - 1)}}
+	case k <= 2:
+		return &spNode{kind: "exists", kids: []*spNode{g.pathNode("@", false)}}
+	case k == 3:
+		return &spNode{kind: "not", kids: []*spNode{g.pathNode("@", false)}}
+	case k <= 6:
+		op := []string{"<", "<=", ">", ">="}[g.r.Intn(4)]
+		return &spNode{kind: "cmp", op: op, kids: []*spNode{g.pathNode("@", false), g.numberNode()}}
+	default:
+		op := []string{"==", "!="}[g.r.Intn(2)]
+		var right *spNode
+		switch g.r.Intn(5) {
+		case 0:
+			right = &spNode{kind: "string", key: []string{"s", "x y", "", "a"}[g.r.Intn(4)]}
+		case 1:
+			right = &spNode{kind: "word", key: []string{"true", "false", "null"}[g.r.Intn(3)]}
+		case 2:
+			right = g.pathNode("$", true)
+		default:
+			right = g.numberNode()
+		}
+		if g.r.Intn(4) == 0 {
+			return &spNode{kind: "cmp", op: op, kids: []*spNode{right, g.pathNode("@", false)}}
+		}
+		return &spNode{kind: "cmp", op: op, kids: []*spNode{g.pathNode("@", false), right}}
+	}
+}
+
+func (g *spGen) numberNode() *spNode {
+	if g.r.Intn(4) == 0 {
+		return &spNode{kind: "number", key: []string{"1.5", "2.0", "0.5", "3e0"}[g.r.Intn(4)]}
+	}
+	return &spNode{kind: "number", num: g.r.Intn(8) - 1}
+}
+
+func (g *spGen) pathSteps() []*spNode {
+	var steps []*spNode
+	for i := 1 + g.r.Intn(4); i > 0; i-- {
+		n := g.stepNode(2)
+		if g.r.Intn(6) == 0 {
+			n.rec = true
+		}
+		steps = append(steps, n)
+	}
+	return steps
+}
+
+func spErrType(o apiOutcome) string {
+	if i := strings.Index(o.err, ":"); i >= 0 {
+		return o.err[:i]
+	}
+	return o.err
+}
+
+func apiCheckSpellings(t *testing.T) {
+	asts, variants := 400, 5
+	if apiThorough {
+		asts, variants = 6000, 12
+	}
+	g := &spGen{r: rand.New(rand.NewSource(18))}
+	var docs []interface{}
+	for _, ds := range refDocs() {
+		docs = append(docs, refDecode(ds, false))
+	}
+	docs = append(docs, refDecode(`[{"a":1.5,"b":"s","c":true,"p":[0,1,2,3,4,5],"y":null},{"a":"x y","b":2,"c":[{"a":2.0},{"a":0.5}],"p":{"a":{"b":3}}},{"a":{"b":1},"b":[3,{"a":1}],"y":""}]`, false))
+	for i := 0; i < asts && !t.Failed(); i++ {
+		steps := g.pathSteps()
+		canon := (&sp{canon: true}).steps(steps, "$", true)
+		cf := apiParse(t, canon, Config{})
+		seen := map[string]bool{canon: true}
+		for v := 0; v < variants; v++ {
+			text := (&sp{r: rand.New(rand.NewSource(int64(1000*i + v)))}).steps(steps, "$", true)
+			if v == variants-1 {
+				text = " " + text + "  " // leading and trailing spaces
+			}
+			if seen[text] {
+				continue
+			}
+			seen[text] = true
+			vf := apiParse(t, text, Config{})
+			if (cf == nil) != (vf == nil) {
+				t.Errorf("REPRODUCED: C18: %q parses: %v but its spelling %q parses: %v", canon, cf != nil, text, vf != nil)
+				return
+			}
+			if cf == nil {
+				continue
+			}
+			for _, doc := range docs {
+				co, _ := apiEval(cf, doc)
+				vo, _ := apiEval(vf, doc)
+				if co.panic != nil || vo.panic != nil {
+					t.Errorf("REPRODUCED: C18: panic evaluating %q / %q on %s: %v %v", canon, text, apiSnapshot(doc), co.panic, vo.panic)
+					return
+				}
+				if co.res != vo.res || spErrType(co) != spErrType(vo) {
+					t.Errorf("REPRODUCED: C18: spellings differ on %s:\n  %q -> %s %s\n  %q -> %s %s", apiSnapshot(doc), canon, co.res, co.err, text, vo.res, vo.err)
+					return
+				}
+			}
+		}
+	}
+}
+
 type apiStruct struct{ X int }
 
 // C20: documents with non-JSON leaves
@@ -2015,6 +2382,8 @@ func TestVerifReplay(t *testing.T) {
 		apiCheckCompose(t)
 	case "C16":
 		apiCheckKeys(t)
+	case "C18":
+		apiCheckSpellings(t)
 	case "C14":
 		apiCheckFunctions(t)
 	case "C15":
